@@ -1,6 +1,7 @@
 package elin
 
 import (
+	"fmt"
 	"go/token"
 	"go/types"
 	"math/big"
@@ -13,6 +14,9 @@ import (
 func (w *World) fit(in ssa.Instruction, k ikind, x *Int, what string) *Int {
 	if x.R.Leq(k.rng()) {
 		return x
+	}
+	if w.WrapMode && !k.isBool {
+		return w.wrapInto(in, k, x, what)
 	}
 	w.fail(in, "%s may wrap: the result ranges over %s, outside %s", what, x.R, kindName(k))
 	return w.opaqueInt(k.rng(), "wrapped "+what)
@@ -138,6 +142,36 @@ func (w *World) compare(in ssa.Instruction, op token.Token, x, y *Int) *Int {
 	if a, ok := concOf(x); ok {
 		if b, ok := concOf(y); ok {
 			return boolInt(cmpHolds(op, a.Cmp(b)))
+		}
+	}
+	if op == token.EQL || op == token.NEQ {
+		// a 0/1 word compared with 0 or 1 is an affine function of the word
+		for _, p := range [][2]*Int{{x, y}, {y, x}} {
+			if c, ok := concOf(p[1]); ok && p[0].R.Leq(Itv{bigZero, bigOne}) && (c.Sign() == 0 || c.Cmp(bigOne) == 0) {
+				if (c.Sign() != 0) == (op == token.EQL) {
+					return p[0] // x == 1, x != 0
+				}
+				ar := Itv{new(big.Int).Sub(bigOne, p[0].R.Hi), new(big.Int).Sub(bigOne, p[0].R.Lo)}
+				return w.mkInt(int64Form(1).Sub(p[0].F()), &ar) // x == 0, x != 1
+			}
+		}
+		// a bit pattern (unsigned or two's complement layout) with a bit that is
+		// the constant 1 differs from 0
+		for _, p := range [][2]*Int{{x, y}, {y, x}} {
+			if c, ok := concOf(p[1]); ok && c.Sign() == 0 {
+				l, isLay := w.layoutOf(p[0])
+				if !isLay {
+					l, isLay = w.twosOf(p[0], 64)
+				}
+				if isLay {
+					for _, cell := range l {
+						if cell == layOne {
+							w.Stats["comparisons with 0 decided by a constant 1 bit"]++
+							return boolInt(op == token.NEQ)
+						}
+					}
+				}
+			}
 		}
 	}
 	d := w.mkInt(x.F().Sub(y.F()), ptrItv(x.R.Sub(y.R))).R // range of x - y
@@ -312,6 +346,10 @@ func (w *World) binop(in ssa.Instruction, op token.Token, x, y *Int, xt, rt type
 					r[i] = cx
 				case op == token.XOR && cx == cy:
 					r[i] = 0
+				case w.WrapMode && op == token.OR:
+					// two different bits at one position: some 0/1 value (sound, the relation is lost)
+					w.Stats["| of different bits at one position (fresh bit)"]++
+					r[i] = int32(w.newVar(VarInfo{Kind: VOpaque, Name: fmt.Sprintf("bit#%d (| of two different bits)", len(w.vars)), Lo: bigZero, Hi: bigOne, Why: "| of two different bits"}) + 1)
 				default:
 					good = false
 				}
@@ -455,6 +493,17 @@ func (w *World) convert(in ssa.Instruction, x *Int, from, to types.Type) *Int {
 	}
 	if x.R.Leq(kt.rng()) {
 		return x // the value is unchanged
+	}
+	if w.WrapMode && kt.bits == kf.bits && kt.signed != kf.signed {
+		// reinterpretation of a two's complement bit pattern, else a wrap term
+		if kf.signed {
+			if l, ok := w.twosOf(x, kf.bits); ok {
+				return w.fromLayout(l)
+			}
+		} else if l, ok := w.layoutOf(x); ok && l.top() <= int(kt.bits) {
+			return w.fromTwos(l, kt.bits)
+		}
+		return w.wrapInto(in, kt, x, "conversion")
 	}
 	if !kt.signed {
 		// truncation to an unsigned type = remainder modulo 2^bits (exact, also
